@@ -15,7 +15,7 @@ FUNCTIONS = ["xgcm.padding:_pad_face_connections", "xgcm.padding:pad", "xgcm.pad
              "xgcm.grid:Grid._map_kwargs_over_axes", "xgcm.grid:Grid._1d_grid_ufunc_dispatch", "xgcm.grid:Grid.cumsum",
              "xgcm.grid:Grid._apply_vector_function", "xgcm.grid_ufunc:apply_as_grid_ufunc", "xgcm.transform:transform", "xgcm.grid:Grid.set_metrics"]
 BOUNDS = {
-    "quick": {"sequences": "every operation of 29 families twice on the same argument objects, and every ordered pair of operations on the same Grid and objects, each compared with the operation run first on fresh objects; constructor with every mapping-valued argument",
+    "quick": {"sequences": "every operation of 32 families twice on the same argument objects, and every ordered pair of operations on the same Grid and objects, each compared with the operation run first on fresh objects; constructor with every mapping-valued argument",
               "grids": "simple 2-axis grid with metrics; 2-face grid with an axis-swapping link (vector operations); outer-position grid (transform)", "data": "symbolic"},
     "thorough": {"sequences": "+ every ordered triple over 8 representative families"},
 }
@@ -148,6 +148,9 @@ OPS = {
     "transform-linear-anonymous-target": lambda o: o.grid.transform(o.phi, "Z", o.levels, target_data=o.theta, method="linear"),
     "transform-conservative": lambda o: o.grid.transform(o.phi, "Z", o.bins, target_data=o.theta_o, method="conservative"),
     "set_metrics-refused": lambda o: o.grid.set_metrics(("X",), "dx"),
+    "set_metrics-unknown-variable-for-a-new-axis-set": lambda o: o.grid.set_metrics(("X", "Y"), "no_such_variable"),
+    "set_metrics-unknown-variable-for-an-existing-axis-set": lambda o: o.grid.set_metrics(("Y",), "no_such_variable", overwrite=True),
+    "integrate-over-a-product-of-metrics": lambda o: o.grid.integrate(o.a, ["Y", "X"]),
     "diff-wrong-axis": lambda o: o.grid.diff(o.a, "Q", boundary=o.bdict),
 }
 REPRESENTATIVE = ["diff-kwdicts", "cumsum", "integrate", "ufunc", "vector-diff", "vector-interp-2d", "transform-linear-anonymous-target", "diff-wrong-axis"]
